@@ -806,8 +806,7 @@ impl Model {
                             }
                             crate::variables::Var::VarF(interval) => {
                                 if let Val::ValF(f) = val {
-                                    interval.min = *f;
-                                    interval.max = *f;
+                                    interval.fix_to(*f);
                                 }
                             }
                         }
@@ -823,8 +822,7 @@ impl Model {
                             }
                             crate::variables::Var::VarF(interval) => {
                                 if let Val::ValF(f) = val {
-                                    interval.min = *f;
-                                    interval.max = *f;
+                                    interval.fix_to(*f);
                                 }
                             }
                         }
